@@ -17,6 +17,31 @@ func main() {
 		debugPdom(os.Args[2], os.Args[3])
 		return
 	}
+	if len(os.Args) == 2 && os.Args[1] == "bounds" {
+		// the registered bounds of every check, as markdown (pasted into DESIGN.md by gen_bounds.py)
+		var ids []string
+		for id := range specs {
+			ids = append(ids, id)
+		}
+		sort.Strings(ids)
+		for _, id := range ids {
+			sp := specs[id]
+			fmt.Printf("**%s**\n\n", id)
+			fmt.Printf("* quick: %s\n", sp.Bounds["quick"])
+			fmt.Printf("* thorough: %s\n", sp.Bounds["thorough"])
+			for _, o := range sp.Outside {
+				fmt.Printf("* outside the claim: %s\n", o)
+			}
+			for _, a := range sp.Assumptions {
+				fmt.Printf("* assumes: %s\n", a)
+			}
+			if sp.ContractStubs != "" {
+				fmt.Printf("* contract stubs: %s\n", sp.ContractStubs)
+			}
+			fmt.Println()
+		}
+		return
+	}
 	if len(os.Args) < 3 || os.Args[1] != "check" {
 		fmt.Println("usage: gosym check <property-id> [quick|thorough]")
 		var ids []string
